@@ -166,9 +166,8 @@ func c03TriggersCase(tier string, idx int) *c03Case {
 	case 4: // callback defined before main, trigger after a closure literal
 		p.Funcs = append(p.Funcs, cb, mainFn(append(decl, hs.LetS("k", fnLit(hs.TInt, hs.Blk(hs.I(1)))), use("k"), tr)...))
 		return single(p, tags...)
-	case 5: // `on` as the connective
-		tr.Kind = "on"
-		p.Funcs = append(p.Funcs, mainFn(append(decl, tr)...))
+	case 5: // in a helper that is defined before the callback and called from a closure
+		p.Funcs = append(p.Funcs, hs.Fn("setup", nil, hs.Blk(nil, append(decl, tr)...)), mainFn(hs.LetS("k", fnLit(nil, hs.Blk(nil, hs.ES(hs.CallN("setup"))))), hs.ES(hs.CallE(hs.V("k")))))
 	}
 	p.Funcs = append(p.Funcs, cb)
 	return single(p, tags...)
@@ -246,7 +245,7 @@ func c03ModulesCase(tier string, idx int) *c03Case {
 		p.Funcs = append(p.Funcs, mainFn(hs.LetS("f", hs.V("norm")), hs.LetT("n", hs.TInt, hs.CallE(hs.V("f"), point())), use("n")))
 	case 13: // template and trigger imports next to code imports
 		p.Imports = append(p.Imports, hs.Import{Names: []string{"templ Lamp", "templ Sensor"}, From: "templates"}, hs.Import{Names: []string{"trigger boot"}, From: "triggers"}, hs.Import{Names: []string{"mk"}, From: "lib"})
-		p.Funcs = append(p.Funcs, mainFn(hs.Println(hs.CallN("mk", hs.I(1), hs.I(2))), &hs.Trigger{Callback: "start", Kind: "on", Event: "boot"}), &hs.Func{Name: "start", Event: true, Body: hs.Blk(nil)})
+		p.Funcs = append(p.Funcs, mainFn(hs.Println(hs.CallN("mk", hs.I(1), hs.I(2))), &hs.Trigger{Callback: "start", Kind: "at", Event: "boot"}), &hs.Func{Name: "start", Event: true, Body: hs.Blk(nil)})
 	case 14: // pub items in the entry module
 		p.Types = append(p.Types, &hs.TypeDef{Name: "Id", T: hs.TInt, Pub: true})
 		p.Globals = append(p.Globals, &hs.Let{Name: "next", T: hs.TNamed("Id"), X: hs.I(1), Pub: true})
